@@ -82,9 +82,12 @@ Proof.
   destruct (mem_z _ _); cbn [WQ].
   - apply RK_emit; [|exact Logic.I]. destruct (0 <? timeout); [|exact RK2].
     apply RK_kern; [exact I2|exact RK2|reflexivity|reflexivity|apply KX_set_clock; apply RK2].
-  - pose proof (sleep_fields (kern s2) maxev timeout (sc_rot sc (nwait (kern s2)))) as SF.
-    pose proof (epoll_sleep_KX (kern s2) maxev timeout (sc_rot sc (nwait (kern s2))) (proj2 RK2)) as SK.
-    destruct (k_epoll_sleep (kern s2) maxev timeout (sc_rot sc (nwait (kern s2)))) as [k1 evs|k1| |]; cbn [WQ]; try exact Logic.I.
+  - change (kern s2) with (kern s1).
+    pose proof (sleep_fields (kern s1) maxev timeout (sc_rot sc (nwait (kern s1)))) as SF.
+    pose proof (epoll_sleep_KX (kern s1) maxev timeout (sc_rot sc (nwait (kern s1))) K1) as SK.
+    pose proof (epoll_sleep_spec (kern s1) maxev timeout (sc_rot sc (nwait (kern s1)))) as KS.
+    destruct (k_epoll_sleep (kern s1) maxev timeout (sc_rot sc (nwait (kern s1)))) as [k1 evs|k1| |]; cbn [WQ];
+      try exact Logic.I; try (destruct KS; fail).
     apply RK_emit; [|exact Logic.I]. apply RK_kern; [exact I2|exact RK2|apply SF|apply SF|apply SK].
 Qed.
 
